@@ -6,7 +6,7 @@
 (* model-level theorems of the declarative semantics on each of them and   *)
 (* prints one behaviour ("CASE {...}") per state for the Rust side.        *)
 (***************************************************************************)
-EXTENDS AscentDesugar, Json, IOUtils
+EXTENDS AscentDesugar, CodePlan, Json, IOUtils
 
 Progs == JsonDeserialize(IOEnv.PROGS)
 
@@ -68,6 +68,19 @@ MonotoneStep ==
    [][ Monotone(P) => DbBelow(P, LeastModel(P, inp), LeastModel(P, inp')) ]_vars
 
 RowsJ(S) == SetToSeq(S)
+
+(* the plan the macro actually produced (CodePlan.tla), executed by the model, computes the least model, and every   *)
+(* join it compiled as reorderable is order-insensitive. Never blocks: a failing input is printed for replay.        *)
+CodePlanCorrect ==
+   (HasPlan(P) /\ PlanCovers(P)) =>
+      LET lm == LeastModel(P, inp)
+          ok1 == CodePlanResult(P, inp) = lm
+          ok2 == ReorderSafe(P, lm)
+      IN  IF ok1 /\ ok2 THEN TRUE
+          ELSE PrintT("CPFAIL " \o ToJson([ prog |-> P.name, plan_result_ok |-> ok1, reorder_ok |-> ok2,
+                                            inputs |-> [ r \in InputRels(P) |-> RowsJ(inp[r]) ] ]))
+EmitCover == (Size(inp) = 0) => PrintT("COVER " \o ToJson([ prog |-> P.name, has |-> HasPlan(P),
+                                                            covers |-> IF HasPlan(P) THEN PlanCovers(P) ELSE FALSE ]))
 PlanJ(Q) == LET pl == PlanOf(Q) IN
    [ i \in DOMAIN pl |-> [ looping |-> pl[i].looping, dynamic |-> SetToSeq(pl[i].dynamic),
                           variants |-> FoldSet(LAMBDA r, acc : acc + r.variants, 0, pl[i].rules),
